@@ -586,6 +586,19 @@ func collectPtrs(x any, m map[uintptr]string) {
 	}
 }
 
+func collectStacks(x any, out *[]stackage.Stack) {
+	if s, ok := stackage.ConvertStack(x); ok {
+		*out = append(*out, s)
+		for _, e := range stackage.VerifDump(s).Elems {
+			collectStacks(e, out)
+		}
+		return
+	}
+	if c, ok := stackage.ConvertCondition(x); ok {
+		collectStacks(c.Expression(), out)
+	}
+}
+
 // watchdog: generous for the first few timeouts (a loaded machine must not fake a deadlock),
 // short afterwards (a build that deadlocks does so on many cases)
 var revealTimeouts = 0
@@ -606,6 +619,8 @@ func runRevealTree(payload string) string {
 	}
 	ptrs := map[uintptr]string{}
 	collectPtrs(root, ptrs)
+	var handles []stackage.Stack // every Stack of the tree as it is before Reveal: none of them may be left locked
+	collectStacks(root, &handles)
 
 	var mu sync.Mutex
 	var locks []string
@@ -645,5 +660,11 @@ func runRevealTree(payload string) string {
 	x := joinOrDash(locks)
 	mu.Unlock()
 	after := rvDescribe(root)
-	return fmt.Sprintf("%s ; T %s ; X %s", specBlocks(before, after), after.String(), x)
+	left := 0
+	for _, h := range handles {
+		if stackage.VerifDump(h).Locked {
+			left++ // Reveal has returned and this instance's lock is still held: the next locking call on it never returns
+		}
+	}
+	return fmt.Sprintf("%s ; T %s ; X %s U%d", specBlocks(before, after), after.String(), x, left)
 }
